@@ -221,7 +221,7 @@ def finish(pid, tier, seed, res, t0, rule, assumptions, extra=None, min_features
     print('features: ' + ' '.join('%s=%d' % kv for kv in sorted(res.features.items())))
     for sig in sorted(reported_known):
         print('KNOWN-FINDING: property=%s %s' % (pid, by_sig[sig]['description']))
-    if vac:
+    if vac and not real:
         sys.stderr.write('HARNESS-ERROR: VACUOUS %s: %s\n' % (pid, ', '.join(vac)))
         return 2
     if real:
